@@ -15,6 +15,7 @@ from typing import Callable, Dict, List, Optional, Set, Tuple, Union, cast
 from pymarkdown.application_file_scanner import ApplicationFileScanner
 from pymarkdown.extensions.pragma_token import PragmaToken
 from pymarkdown.general.bad_tokenization_error import BadTokenizationError
+from pymarkdown.general import verif_probe
 from pymarkdown.general.main_presentation import MainPresentation
 from pymarkdown.general.parser_helper import ParserHelper
 from pymarkdown.general.parser_logger import ParserLogger
@@ -88,6 +89,8 @@ class FileScanHelper:
         else:
             POGGER.debug("Scanning from: $", files_to_scan)
             for next_file in files_to_scan:
+                if verif_probe.ENABLED:
+                    verif_probe.emit("file_begin", file=next_file, fix=in_fix_mode)
                 if in_fix_mode:
                     did_fix_file, did_succeed = self.__fix_specific_file(
                         next_file,
@@ -98,9 +101,19 @@ class FileScanHelper:
                     )
                     if did_fix_file:
                         self.__presentation.print_fix_message(next_file)
+                        if verif_probe.ENABLED:
+                            verif_probe.emit("announce", file=next_file)
                         did_fix_any_file = True
                 else:
                     did_succeed = self.__scan_specific_file(next_file, next_file)
+                if verif_probe.ENABLED:
+                    verif_probe.emit(
+                        "file_end",
+                        file=next_file,
+                        fix=in_fix_mode,
+                        ok=bool(did_succeed),
+                        fixed=bool(in_fix_mode and did_fix_file),
+                    )
                 if not did_succeed:
                     did_fail_any_file = True
         return did_fix_any_file, did_fail_any_file
@@ -249,6 +262,13 @@ class FileScanHelper:
         if not self.__continue_on_error:
             allow_shortcut = False
 
+        if verif_probe.ENABLED:
+            verif_probe.emit(
+                "scan_error",
+                file=next_file,
+                kind=type(this_exception).__name__,
+                shortcut=bool(allow_shortcut),
+            )
         if allow_shortcut:
             show_extended_information = False
             print_prefix = ""
@@ -367,15 +387,36 @@ class FileScanHelper:
         if did_anything_get_fixed:
             if fix_debug and fix_file_debug:
                 print(f"Copy {temporary_line_file_name} to {next_file}")
+            if verif_probe.ENABLED:
+                verif_probe.emit(
+                    "writeback_begin", file=next_file, tmp=temporary_line_file_name
+                )
             shutil.copyfile(temporary_line_file_name, next_file)
+            if verif_probe.ENABLED:
+                verif_probe.emit("writeback_end", file=next_file)
         if fix_debug and fix_file_debug:
             print(f"Remove:{temporary_line_file_name}")
         os.remove(temporary_line_file_name)
+        if verif_probe.ENABLED:
+            verif_probe.emit("tmp_del", tmp=temporary_line_file_name)
         if next_file_two != next_file:
             if fix_debug and fix_file_debug:
                 print(f"Remove:{next_file_two}")
             os.remove(next_file_two)
+            if verif_probe.ENABLED:
+                verif_probe.emit("tmp_del", tmp=next_file_two)
 
+        if verif_probe.ENABLED:
+            verif_probe.emit(
+                "pass_end",
+                file=next_file,
+                fix_list=sorted(fix_list),
+                collect_list=sorted(collect_list),
+                tokens_fixed=bool(did_any_tokens_get_fixed),
+                lines_fixed=bool(did_any_lines_get_fixed),
+                token_triggers=sorted(collected_token_triggers),
+                line_triggers=sorted(collected_line_triggers),
+            )
         return did_anything_get_fixed, collected_token_triggers, collected_line_triggers
 
     # pylint: enable=too-many-arguments, too-many-locals
@@ -401,6 +442,14 @@ class FileScanHelper:
             elif fix_level > minimum_fix_level:
                 collect_list.extend(level_list)
         assert fix_list is not None
+        if verif_probe.ENABLED:
+            verif_probe.emit(
+                "level_begin",
+                file=next_file,
+                level=minimum_fix_level,
+                fix_list=sorted(fix_list),
+                collect_list=sorted(collect_list),
+            )
 
         (
             did_anything_get_fixed_this_time,
@@ -434,6 +483,16 @@ class FileScanHelper:
             keep_processing = True
             minimum_fix_level = new_minimum_fix_level
 
+        if verif_probe.ENABLED:
+            verif_probe.emit(
+                "level_end",
+                file=next_file,
+                levels=sorted(plugins_by_fix_level.keys()),
+                triggers=sorted(trigger_set),
+                keep=keep_processing,
+                changed=bool(did_anything_get_fixed_this_time),
+                next_level=minimum_fix_level,
+            )
         return keep_processing, did_anything_get_fixed_this_time, minimum_fix_level
 
     # pylint: enable=too-many-arguments, too-many-locals
@@ -512,6 +571,8 @@ class FileScanHelper:
         source_provider = FileSourceProvider(next_file)
         with tempfile.NamedTemporaryFile() as temp_output:
             temporary_file_name = temp_output.name
+        if verif_probe.ENABLED:
+            verif_probe.emit("tmp_new", tmp=temporary_file_name, phase="lines")
         with open(temporary_file_name, "wt", encoding="utf-8") as source_file:
             POGGER.info("Scanning before line-by-line fixes.")
             fix_context = self.__plugins.starting_new_file(
@@ -779,6 +840,8 @@ class FileScanHelper:
             print(f"MARKDOWN:{ParserHelper.make_value_visible(markdown_from_tokens)}")
         with tempfile.NamedTemporaryFile() as temp_output:
             temporary_file_name = temp_output.name
+        if verif_probe.ENABLED:
+            verif_probe.emit("tmp_new", tmp=temporary_file_name, phase="tokens")
         with open(temporary_file_name, "wt", encoding="utf-8") as source_file:
             source_file.write(markdown_from_tokens)
             next_file = temporary_file_name
